@@ -2357,7 +2357,7 @@ static void _iterator_advance_range(hostlist_iterator_t i)
     if (++i->depth > 0) {
         while (++j < nr && hostrange_within_range(i->hr, hr[j])) {;}
         i->idx = j;
-        i->hr = i->hl->hr[i->idx];
+        i->hr = (j < nr) ? hr[j] : NULL;
         i->depth = 0;
     }
 }
